@@ -86,11 +86,11 @@ pub fn main(args: &[String]) -> i32 {
 /// Code under test that does not return cannot wedge or starve the harness: if the child stays
 /// silent for longer than the per-line deadline it is killed and a `hang` event is recorded.
 fn run_child(inst: &Value) -> Vec<String> {
-    // A silent child is killed; but silence can also be a loaded machine.  A hang is therefore
-    // reported only if it reproduces with a deadline eight times as long.
+    // A silent child is killed; but silence can also be a loaded machine.  On a loaded machine a
+    // hang is therefore reported only if it reproduces with a deadline eight times as long.
     let budget_ms = inst["budget_ms"].as_u64().unwrap_or(4000);
     let (lines, hung) = run_child_with(inst, Duration::from_millis(5 * budget_ms + 1500));
-    if !hung {
+    if !hung || !crate::util::machine_loaded() {
         return lines;
     }
     let (lines2, _) = run_child_with(inst, Duration::from_millis(8 * (5 * budget_ms + 1500)));
